@@ -14,7 +14,9 @@ from props.engine_common import plain
 
 WORDS = {
     'W': ['ALFA', 'Bravo', 'market', 'STORE', 'Zulu', 'Émile'],
-    'M': ['A.B', 'C+', '(X)', 'A|B', '$5', 'W*', 'WHAT?', '[Q]', 'C\\D', '^UP', '{X}', 'SUB#2', '#ONE', 'NO.#7', 'A#B'],
+    'M': ['A.B', 'C+', '(X)', 'A|B', '$5', 'W*', 'WHAT?', '[Q]', 'C\\D', '^UP', '{X}', 'SUB#2', '#ONE', 'NO.#7', 'A#B',
+          # what some exports leave in the description column: HTML character references are just characters of the description
+          'AT&amp;T', 'B&amp;N', '&lt;CO&gt;', 'R&#38;D', 'MC&#39;S', '&quot;X&quot;', 'A&nbsp;B'],
     'Q': ["JOE'S", 'O"K', "'N'", '"THE"', '6"', "5'", '"'],
     'N2': ['12', '7', '123'],
     'N4': ['1234', '98101', '0012345', '2025'],
@@ -29,8 +31,10 @@ def concretise(shapes, rnd):
     words = []
     prefix = ''
     for i, s in enumerate(shapes):
-        if s == 'P':
+        if s == 'P' and i == 0:
             prefix = rnd.choice(PREFIXES)
+        elif s == 'P':
+            words.append(rnd.choice(PREFIXES).strip())      # a processor tag in the middle is part of the description like any word
         else:
             words.append(rnd.choice(WORDS[s]))
     sep = rnd.choice([' ', ' ', '  '])
